@@ -131,14 +131,52 @@ def _stage(I, states, fnkey, mkargs, keep):
     return out
 
 
+def stamp_roles(prog):
+    """The private helpers of the generation counter, found by role (signature + position in the call graph), not by name:
+    removed  = the `&mut self` method of the stamp type reachable from Arena::free_node
+    reuse    = the `&mut self` method reachable from Arena::new_node but not from free_node
+    reuseable = the `self -> bool` method reachable from free_node
+    is_removed = the `self -> bool` method reachable from Node::is_removed"""
+    from .. import rules
+    idx = rules.Index(prog)
+    meths = []
+    for k, f in prog.fns.items():
+        if k.startswith(STK) and "mir" in f and not f.get("impl_derived") and not f.get("impl_trait_path") and "{closure" not in k:
+            mir = f["mir"]
+            if mir["arg_count"] < 1:
+                continue
+            a1 = prog.tys(mir["locals"][1]["ty"])
+            ret = prog.tys(mir["locals"][0]["ty"])
+            meths.append((k, a1, ret, mir["arg_count"]))
+    free_cone = idx.reachable(["crate::arena::Arena<T>::free_node"])
+    new_cone = idx.reachable(["crate::arena::Arena<T>::new_node"])
+    isrem_cone = idx.reachable(["crate::node::Node<T>::is_removed"])
+    cand = {
+        "removed": [k for (k, a1, ret, n) in meths if a1.startswith("&mut ") and n == 1 and k in free_cone],
+        "reuse": [k for (k, a1, ret, n) in meths if a1.startswith("&mut ") and n == 1 and k in new_cone and k not in free_cone],
+        "reuseable": [k for (k, a1, ret, n) in meths if ret == "bool" and n == 1 and k in free_cone and k not in isrem_cone],
+        "is_removed": [k for (k, a1, ret, n) in meths if ret == "bool" and n == 1 and k in isrem_cone],
+    }
+    roles = {}
+    for r, ks in cand.items():
+        if len(ks) != 1:
+            return None, "cannot identify the stamp helper for role `%s` (candidates: %s)" % (r, ks)
+        roles[r] = ks[0]
+    return roles, None
+
+
 def stamp_entry(I):
     """C06: the generation arithmetic as piecewise-affine functions of the live stamp s in [0, MAX] (whole i16 range, symbolically)."""
     recs = []
+    roles, why = stamp_roles(I.prog)
+    if roles is None:
+        return [{"entry": "stamp", "exit": "undecided", "msg": why, "s_range": [0, I16_MAX]}]
+    recs.append({"entry": "stamp", "table": "roles", "roles": roles, "exit": "return"})
     sym = ("st", "s")
     st = State()
     st.bounds[sym] = (0, I16_MAX)
     slot = st.new_temp(VStruct(STAMP, (("0", VInt(Lin(0, sym, 1), 16, True)),)))
-    a = _stage(I, [st], STK + "as_removed", lambda s: [VRef(slot, (), True)], None)
+    a = _stage(I, [st], roles["removed"], lambda s: [VRef(slot, (), True)], None)
     for (s1, k1, v1, m1) in a:
         lo, hi = s1.bounds[sym]
         base = {"entry": "stamp", "s_range": [lo, hi], "as_removed_exit": k1, "msg": m1}
@@ -150,7 +188,7 @@ def stamp_entry(I):
         rlo, rhi = s1.term_bounds(removed.t)
         base["removed_term"] = repr(removed.t)
         base["removed_range"] = [rlo, rhi]
-        b = _stage(I, [s1], STK + "reuseable", lambda s: [s.meta["temps"][slot[1]]], None)
+        b = _stage(I, [s1], roles["reuseable"], lambda s: [s.meta["temps"][slot[1]]], None)
         for (s2, k2, v2, m2) in b:
             r2 = dict(base)
             r2["s_range"] = list(s2.bounds[sym])
@@ -165,7 +203,7 @@ def stamp_entry(I):
                 r2["exit"] = "retired"
                 recs.append(r2)
                 continue
-            c = _stage(I, [s2], STK + "reuse", lambda s: [VRef(slot, (), True)], None)
+            c = _stage(I, [s2], roles["reuse"], lambda s: [VRef(slot, (), True)], None)
             for (s3, k3, v3, m3) in c:
                 r3 = dict(r2)
                 r3["s_range"] = list(s3.bounds[sym])
@@ -186,7 +224,7 @@ def stamp_entry(I):
     st = State()
     st.bounds[sym] = (I16_MIN, I16_MAX)
     val = VStruct(STAMP, (("0", VInt(Lin(0, sym, 1), 16, True)),))
-    for (s1, k1, v1, m1) in _stage(I, [st], STK + "is_removed", lambda s: [val], None):
+    for (s1, k1, v1, m1) in _stage(I, [st], roles["is_removed"], lambda s: [val], None):
         recs.append({"entry": "stamp", "table": "NodeStamp::is_removed", "s_range": list(s1.bounds[sym]), "exit": k1,
                      "value": v1.b if k1 == "return" else None, "msg": m1})
     # Node::is_removed and NodeId::is_removed on the two V cases
